@@ -66,7 +66,7 @@ def HeightsOk (S : Store) (w : Wid) : Prop :=
 
 theorem confs_exact {S : Store} {w : Wid} (h : HeightsOk S w) {c : Coin} (hc : c ∈ coinsOf S w) :
     confs S.syncedTo c.blk.height = S.syncedTo - c.blk.height + 1 :=
-  MW.Props.C01.confs_of_le _ _ (h.2 c hc) (Nat.lt_trans h.1 (by decide))
+  MW.Lemmas.Ledger.confs_of_le _ _ (h.2 c hc) (Nat.lt_trans h.1 (by decide))
 
 theorem confs32_exact {S : Store} {w : Wid} (h : HeightsOk S w) {c : Coin} (hc : c ∈ coinsOf S w) :
     confs S.syncedTo c.blk.height % 2^32 = S.syncedTo - c.blk.height + 1 := by
